@@ -523,6 +523,11 @@ class ResourceScenario(ScenarioData):
                 if hasattr(vac, "interval") and vac.interval and vac.interval.start <= date < vac.interval.end:
                     return False
 
+        # Global leaves (holidays) apply to every resource
+        for leave in self.project.attributes.get("leaves", None) or []:
+            if hasattr(leave, "interval") and leave.interval and leave.interval.start <= date < leave.interval.end:
+                return False
+
         # Check resource-level leaves/vacations
         leaves = self.property.get("leaves", self.scenarioIdx)
         if leaves:
